@@ -34,7 +34,7 @@ inductive Err where
   | support      -- `toSlidingWindow` with support < 1
   | feature      -- unknown analytical feature, or a reserved name (x, y, z, t, timestamp, idx) as output feature
   | emptyTrack   -- `createAnalyticalFeature` on a track without observation (AnalyticalFeatureError)
-  | nanKernel    -- a kernel given as a feature name whose values contain NaN (every weight becomes NaN): not modelled
+  | nanKernel    -- a kernel given as a feature name whose values contain NaN (every weight becomes NaN): outside this model, see `Model/FilterExt.lean` (`executeListX`)
   | kernelType   -- a number given as kernel: `len(kernel)` in the kernel preparation raises TypeError
   | operands     -- `Track.operate` with lists of input and output names of different lengths (OperatorError, in fact a NameError)
   deriving DecidableEq, Repr
